@@ -203,13 +203,25 @@ pub struct Embedding {
     pub name: String,
     lo: i64,
     vals: Vec<f64>,
+    /// when set: a zero *argument* is given this zero, whatever zero the breakpoints use
+    /// (-0.0 and +0.0 are one rank: numerically equal, different bits)
+    arg_zero: Option<f64>,
 }
 impl Embedding {
+    /// value of a breakpoint of rank r
     pub fn at(&self, r: i64) -> f64 {
         if r == NAN_RANK {
             return f64::NAN;
         }
         self.vals[(r - self.lo) as usize]
+    }
+    /// value of an argument (query) of rank r
+    pub fn arg(&self, r: i64) -> f64 {
+        let v = self.at(r);
+        match self.arg_zero {
+            Some(z) if v == 0.0 => z,
+            _ => v,
+        }
     }
     fn check(self) -> Self {
         for w in self.vals.windows(2) {
@@ -233,14 +245,18 @@ fn ulps_from(start: f64, n: usize) -> Vec<f64> {
 pub fn embeddings(lo: i64, hi: i64, seed: u64) -> Vec<Embedding> {
     let n = (hi - lo + 1) as usize;
     let mut out = Vec::new();
-    out.push(Embedding { name: "identity".into(), lo, vals: (lo..=hi).map(|r| r as f64).collect() }.check());
+    out.push(Embedding { name: "identity".into(), lo, vals: (lo..=hi).map(|r| r as f64).collect(), arg_zero: None }.check());
+    if lo <= 0 && hi >= 0 {
+        // breakpoint +0.0 queried with -0.0
+        out.push(Embedding { name: "identity(args -0)".into(), lo, vals: (lo..=hi).map(|r| r as f64).collect(), arg_zero: Some(-0.0) }.check());
+    }
     for (nm, base) in [("ulps@1", 1.0f64), ("ulps@-1", -1.0), ("ulps@1e300", 1e300), ("ulps@2^-1022", f64::MIN_POSITIVE)] {
         // centre the run on the base so values straddle it (and the binade boundary)
         let mut s = base;
         for _ in 0..n / 2 {
             s = s.next_down();
         }
-        out.push(Embedding { name: nm.into(), lo, vals: ulps_from(s, n) }.check());
+        out.push(Embedding { name: nm.into(), lo, vals: ulps_from(s, n), arg_zero: None }.check());
     }
     {
         // consecutive floats through -0.0: ..., -2^-1074, -0.0, 2^-1074, ...  (+0.0 never appears:
@@ -249,7 +265,9 @@ pub fn embeddings(lo: i64, hi: i64, seed: u64) -> Vec<Embedding> {
         for _ in 0..n / 2 {
             s = s.next_down();
         }
-        out.push(Embedding { name: "ulps@0".into(), lo, vals: ulps_from(s, n) }.check());
+        out.push(Embedding { name: "ulps@0".into(), lo, vals: ulps_from(s, n), arg_zero: None }.check());
+        // breakpoint -0.0 queried with +0.0
+        out.push(Embedding { name: "ulps@0(args +0)".into(), lo, vals: ulps_from(s, n), arg_zero: Some(0.0) }.check());
     }
     {
         // extremes: the least rank is -inf, the greatest +inf, the rest spread over the whole range
@@ -270,7 +288,7 @@ pub fn embeddings(lo: i64, hi: i64, seed: u64) -> Vec<Embedding> {
             v.push(x);
         }
         if n >= 4 {
-            out.push(Embedding { name: "extremes".into(), lo, vals: v }.check());
+            out.push(Embedding { name: "extremes".into(), lo, vals: v, arg_zero: None }.check());
         }
     }
     {
@@ -283,7 +301,7 @@ pub fn embeddings(lo: i64, hi: i64, seed: u64) -> Vec<Embedding> {
             }
         }
         v.sort_by(|a, b| a.partial_cmp(b).unwrap());
-        out.push(Embedding { name: "random".into(), lo, vals: v }.check());
+        out.push(Embedding { name: "random".into(), lo, vals: v, arg_zero: None }.check());
     }
     out
 }
